@@ -109,8 +109,8 @@ def run(chk: Check):
                 "pools of near-colliding names (AKAI alphabet / ASCII) and checks ChannelConservation, PairIsLR, SimplePairMerged, "
                 "PathsPairwiseDistinct; sequences are put into real AKAI volumes and Roland performances (equal and unequal lengths) and the "
                 "exported channels compared with the prediction; non-trivial = contains a pair or duplicate names")
-    runs = [("akai", naming.AKAI_POOL[:8] if not thorough else naming.AKAI_POOL, 3 if not thorough else 4),
-            ("roland", naming.ASCII_POOL[:10] if not thorough else naming.ASCII_POOL[:18], 3 if not thorough else 4)]
+    runs = [("akai", naming.AKAI_POOL[:9] if not thorough else naming.AKAI_POOL, 3 if not thorough else 4),
+            ("roland", naming.ASCII_POOL[:11] if not thorough else naming.ASCII_POOL[:18], 3 if not thorough else 4)]
     if not thorough:
         runs.append(("akai", ["A L", "A-L", "A R", "A", "A-R"], 4))      # the 4-sibling collisions (D8/D9) in the quick tier
     for kind, pool, k in runs:
